@@ -58,8 +58,8 @@ func negotiateFromAccept(accept string) string {
 
 // refContentType is the Content-Type header value the response must carry.
 func refContentType(transport, rh, accept string) string {
-	if v, ok := rhMap(rh)["Content-Type"]; ok {
-		return v[0]
+	if v, ok := configuredContentType(rh); ok {
+		return v
 	}
 	switch transport {
 	case "GET", "POST":
